@@ -668,7 +668,7 @@ def shrink_graph_roles(graph_w: list, roles, fails0) -> tuple[list, object]:
 
 def shrink(case: dict) -> dict:
     try:
-        if case["part"] == "engine-overlap":
+        if case["part"] in ("engine-overlap", "engine-recovery"):
             return case
         if case["part"] == "resolver":
             if not resolver_fails(case["graph"], case["roles"]):
@@ -828,6 +828,74 @@ def overlapping_same_subject(run: lib.Run) -> None:
             return
 
 
+def recovering_resolver(run: lib.Run) -> None:
+    """ONE engine whose role resolver FAILS for a while and then answers again (a directory that was down): failure patterns
+    k failures in a row for k ≤ 25, bursts separated by successes, sync / async-def / awaitable spellings, three exception classes.
+    While it fails the subject's own roles are used; the FIRST evaluation after it recovered — and every later one — sees the closure
+    again, in the condition and in the audit record (nothing remembers that the resolver used to fail)."""
+    from rbacx.core.engine import Guard
+    graph = {"manager": ["employee"], "employee": ["user"]}
+    pol = policy_of("contains", "employee", "user")
+    closure = StaticRoleResolver(graph).expand(["manager"])
+    patterns = [[True] * k + [False] * 3 for k in (1, 2, 3, 4, 5, 6, 10, 25)]
+    patterns += [[True, True, False, True, True, True, False, False], [False, True, True, True, False], [True, True, True, False, True, True, True, False, False]]
+    for pi, pattern in enumerate(patterns):
+        for spelling in ("sync", "async", "awaitable"):
+            for api in ("sync", "async"):
+                exc = (RuntimeError, TimeoutError, OSError)[(pi + len(spelling)) % 3]
+                state = {"i": 0}
+                inner = StaticRoleResolver(graph)
+
+                def answer(roles, pattern=pattern, state=state, exc=exc, inner=inner):
+                    i = state["i"]
+                    state["i"] += 1
+                    if i < len(pattern) and pattern[i]:
+                        raise exc("directory down")
+                    return inner.expand(roles)
+
+                class SyncRes:
+                    def expand(self, roles):
+                        return answer(roles)
+
+                class AsyncRes:
+                    async def expand(self, roles):
+                        return answer(roles)
+
+                class AwaitableRes:
+                    def expand(self, roles):
+                        try:
+                            return real._Awaitable(answer(roles))
+                        except Exception as e:  # noqa: BLE001
+                            return real._Awaitable(exc=e)
+                events: list = []
+                g = Guard(copy.deepcopy(pol), role_resolver={"sync": SyncRes, "async": AsyncRes, "awaitable": AwaitableRes}[spelling](),
+                          logger_sink=real.RecLogger(events))
+                trace = []
+                bad = None
+                for step, fails in enumerate(pattern):
+                    del events[:]
+                    try:
+                        d = real.call_guard(g, make_req(["manager"]), api)
+                        seen = [((proto.dec(ev["env"]) or {}).get("subject") or {}).get("roles") for ev in events if ev.get("ev") == "audit"]
+                        got = [d.allowed, seen[0] if seen else None]
+                    except Exception as e:  # noqa: BLE001
+                        got = ["raised", type(e).__name__]
+                    want = [False, ["manager"]] if fails else [True, closure]
+                    trace.append({"resolver_fails": fails, "allowed_and_audit_roles": got})
+                    if (got[0] != want[0] or (isinstance(got[1], list) and sorted(got[1]) != sorted(want[1])) or not isinstance(got[1], list)) and bad is None:
+                        bad = step
+                run.evaluations += 1
+                run.count("recovering-resolver")
+                run.nontrivial.add(f"recover{pi}{spelling}{api}")
+                if bad is not None:
+                    run.spec_failures.append({"part": "engine-recovery", "graph": wire_graph(graph), "roles": ["manager"], "policy": pol,
+                                              "resolver_spelling": spelling, "api": api, "exception": exc.__name__, "failure_pattern": pattern,
+                                              "first_wrong_evaluation": bad, "trace": trace, "expected_closure": closure,
+                                              "why": "one engine, a resolver that fails for a while and answers again: an evaluation did not use the "
+                                                     "resolver's answer (the closure) when the resolver answered, or the subject's own roles when it failed"})
+                    return
+
+
 def run_all(run: lib.Run, audit: dict, scale: int = 1) -> None:
     run_resolver_part(run, scale)
     if run.extra.get("aborted_on_timeout"):
@@ -835,6 +903,7 @@ def run_all(run: lib.Run, audit: dict, scale: int = 1) -> None:
     for batch in chunks(engine_cases(run, scale), 2000):
         run_engine_batch(run, audit, batch)
     overlapping_same_subject(run)
+    recovering_resolver(run)
 
 
 def check(run: lib.Run, audit: dict) -> int:
@@ -924,6 +993,12 @@ def replay(run: lib.Run, audit: dict, path: str) -> int:
         overlapping_same_subject(run)
         now = [f for f in run.spec_failures if f.get("part") == "engine-overlap"]
         print("now:", json.dumps(now[0], default=str)[:1500] if now else "each overlapping evaluation saw the closure of its own roles")
+        print("recorded:", json.dumps(c, default=str)[:1500])
+        return 1 if now else 0
+    if c["part"] == "engine-recovery":
+        recovering_resolver(run)
+        now = [f for f in run.spec_failures if f.get("part") == "engine-recovery"]
+        print("now:", json.dumps(now[0], default=str)[:1500] if now else "every evaluation used the resolver's answer when it answered and the own roles when it failed")
         print("recorded:", json.dumps(c, default=str)[:1500])
         return 1 if now else 0
     if c["part"] == "resolver":
